@@ -49,6 +49,24 @@ type Contract struct {
 	Function   bool // deterministic function of its scalar arguments (same arguments, same results)
 }
 
+// Confine: `confine pkg.Type props P init: ... thread: ...` - every field of the struct that no other discipline
+// covers (final, guarded_by, a self-synchronising type) is either assigned only by the init functions (which run
+// before the type's goroutines exist) or touched only by the init functions and the functions of one goroutine.
+type Confine struct {
+	Type   string
+	Props  []string
+	Init   map[string]bool
+	Thread map[string]bool
+}
+
+// GoTracked: `gotracked pkg.Type props P wait: wg…` - every goroutine a method of the type starts is announced, in
+// the statement just before the `go`, to one of the wait groups that the type's Stop waits for.
+type GoTracked struct {
+	Type  string
+	Props []string
+	Wait  map[string]bool
+}
+
 type SpecFn struct {
 	Name   string
 	Params []specParam
@@ -104,6 +122,9 @@ type ContractSet struct {
 	Finals    []string
 	Standins  []Standin
 	Locks     []LockDiscipline
+	Confines  []Confine
+	GoTracked []GoTracked
+	BoxedNonZero map[string][]string // `boxednonzero pkg.Type.Field props P`: type key + "." + field -> props
 	Unopaque  []Unopaque
 	NilReset   map[string]bool // `nilreset pkg.Type.field`: a slice field that, when emptied, must become nil (never a reslice of itself)
 	FinalInit  map[string]string // final field -> the function that initialises it
@@ -432,6 +453,69 @@ func (cs *ContractSet) loadContractText(path string, pkgPath string, text string
 				}
 			}
 			cs.Locks = append(cs.Locks, ld)
+			cur = nil
+			lastText = nil
+			continue
+		case "boxednonzero":
+			// boxednonzero pkg.Type.Field props C23: a value of the struct type converted to the error interface
+			// by code under contract for the property has the field non-zero
+			if len(fields) < 4 || fields[2] != "props" {
+				errf(i, "boxednonzero pkg.Type.Field props Cxx")
+				continue
+			}
+			if cs.BoxedNonZero == nil {
+				cs.BoxedNonZero = map[string][]string{}
+			}
+			cs.BoxedNonZero[fields[1]] = splitProps(fields[3])
+			cur = nil
+			lastText = nil
+			continue
+		case "gotracked":
+			// gotracked pkg.Type props C36 wait: wg1, wg2
+			if len(fields) < 4 || fields[2] != "props" {
+				errf(i, "gotracked pkg.Type props Cxx wait: wg1, wg2")
+				continue
+			}
+			gt := GoTracked{Type: fields[1], Props: splitProps(fields[3]), Wait: map[string]bool{}}
+			rest := strings.Join(fields[4:], " ")
+			if k := strings.Index(rest, "wait:"); k >= 0 {
+				for _, m := range strings.Split(rest[k+5:], ",") {
+					if m = strings.TrimSpace(m); m != "" {
+						gt.Wait[m] = true
+					}
+				}
+			}
+			cs.GoTracked = append(cs.GoTracked, gt)
+			cur = nil
+			lastText = nil
+			continue
+		case "confine":
+			// confine pkg.Type props C35 init: A, B thread: C, D
+			if len(fields) < 4 || fields[2] != "props" {
+				errf(i, "confine pkg.Type props Cxx init: f, g thread: h, k")
+				continue
+			}
+			cf := Confine{Type: fields[1], Props: splitProps(fields[3]), Init: map[string]bool{}, Thread: map[string]bool{}}
+			rest := " " + strings.Join(fields[4:], " ")
+			for _, part := range []struct {
+				tag string
+				m   map[string]bool
+			}{{"init:", cf.Init}, {"thread:", cf.Thread}} {
+				if k := strings.Index(rest, part.tag); k >= 0 {
+					seg := rest[k+len(part.tag):]
+					if e := strings.IndexAny(seg, ":"); e >= 0 {
+						if sp := strings.LastIndex(seg[:e], " "); sp >= 0 {
+							seg = seg[:sp]
+						}
+					}
+					for _, m := range strings.Split(seg, ",") {
+						if m = strings.TrimSpace(m); m != "" {
+							part.m[m] = true
+						}
+					}
+				}
+			}
+			cs.Confines = append(cs.Confines, cf)
 			cur = nil
 			lastText = nil
 			continue
